@@ -156,6 +156,9 @@ def defer_measurements(
                 [val for k, i in keys for val in store.records[k][i]]
                 for store in compatible_datastores
             ]
+            if not products:
+                # No measurement outcome satisfies the conditions: the operation never runs.
+                return []
             control_values = ops.SumOfProducts(products)
             qs = [q for k, i in keys for q in measurement_qubits[k][i]]
             return op.without_classical_controls().controlled_by(*qs, control_values=control_values)
